@@ -250,8 +250,8 @@ theorem onRun_passRel (k : CS → Oracle → List Out → Option Time → PA) (r
   unfold onRun
   dsimp only
   have h0 : SameConn c.dev { c.dev with wake := none } := SameConn.of_fields rfl rfl rfl rfl rfl rfl
-  have hL := h0.trans (innerLoop_same c.env.now 64 { c.dev with wake := none } a o [])
-  generalize innerLoop c.env.now 64 { c.dev with wake := none } a o [] = r at *
+  have hL := h0.trans (innerLoop_same c.env.now (loopBound a) { c.dev with wake := none } a o [])
+  generalize innerLoop c.env.now (loopBound a) { c.dev with wake := none } a o [] = r at *
   split
   · exact .inl (hL.trans (SameConn.of_fields rfl rfl rfl rfl rfl rfl))
   · split
@@ -325,8 +325,8 @@ theorem onRun_quiet (k : CS → Oracle → List Out → Option Time → PA) (res
     Quiet (onRun k rest c a o out tmo left).1.dev := by
   unfold onRun
   dsimp only
-  have hL := (innerLoop_same c.env.now 64 { c.dev with wake := none } a o []).conn
-  generalize innerLoop c.env.now 64 { c.dev with wake := none } a o [] = r at *
+  have hL := (innerLoop_same c.env.now (loopBound a) { c.dev with wake := none } a o []).conn
+  generalize innerLoop c.env.now (loopBound a) { c.dev with wake := none } a o [] = r at *
   have hr : r.dev.conn = 2 := by rw [hL]; exact h2
   split
   · exact Quiet.of_connected hr
